@@ -11,6 +11,9 @@ import (
 	"fmt"
 	"os"
 	"sort"
+	"strconv"
+	"sync"
+	"time"
 )
 
 type ctx struct {
@@ -65,7 +68,31 @@ func main() {
 	if *tier == "thorough" {
 		c.scale = 10
 	}
+	// Time budget: a change that wedges the engine makes every later scenario wait for its watchdogs (or hang
+	// in a call no watchdog covers). At the budget the report is written with what has been found so far and
+	// the process exits with status 3; bin/check keeps the findings and records the run as cut short.
+	budget := 600 * time.Second
+	if *tier == "thorough" {
+		budget = 2000 * time.Second
+	}
+	if v := os.Getenv("HARNESS_BUDGET_S"); v != "" {
+		if n, err := strconv.Atoi(v); err == nil && n > 0 {
+			budget = time.Duration(n) * time.Second
+		}
+	}
+	var once sync.Once
+	go func() {
+		time.Sleep(budget)
+		once.Do(func() {
+			c.r.Note("run cut short at the time budget of %v: later scenarios were not run", budget)
+			c.r.mu.Lock()
+			c.r.Write(*report, nil)
+			os.Exit(3)
+		})
+	}()
 	run(c)
-	m.Close()
-	c.r.Write(*report, m)
+	once.Do(func() {
+		m.Close()
+		c.r.Write(*report, m)
+	})
 }
